@@ -28,15 +28,44 @@ Proof.
   cbn [forallb]. rewrite (Hi _ _ _ _ Ex). cbn [andb]. eapply IH. exact H.
 Qed.
 
+Lemma parse_valid_ok : forall items anc a a',
+  fold_items (parse_item anc) items a = Ok a' -> forallb item_valid_b items = true.
+Proof.
+  assert (Hi : forall it, (fun it => forall anc a a', parse_item anc it a = Ok a' -> item_valid_b it = true) it).
+  { induction it as [n d|n d body IHb|n|k] using sitem_ind2; intros anc a a' H; try reflexivity.
+    rewrite parse_item_super in H. destruct (mem n (p_seen (b_st a))); [discriminate|].
+    destruct (fold_items (parse_item (anc ++ [n])) body (super_start n d a)) as [inner|] eqn:Ef; [|discriminate].
+    pose proof (parse_R1 _ _ _ _ Ef) as (_ & D & _).
+    pose proof (parse_R2 _ _ _ _ Ef) as (_ & _ & _ & B).
+    unfold super_start in D, B. cbn [b_desc b_init app] in D, B.
+    cbn [item_valid_b]. unfold super_finish in H.
+    destruct (b_desc inner) as [|first rest] eqn:Ed; [discriminate|].
+    rewrite <- D. cbn [is_nil negb andb]. rewrite B in H.
+    assert (Hall : forallb item_valid_b body = true).
+    { clear H. revert Ef. generalize (super_start n d a) as a0. intros a0 Ef.
+      revert a0 inner Ef D B Ed. induction IHb as [|x r Hx Hr IH]; intros a0 inner Ef D B Ed; [reflexivity|].
+      rewrite fold_items_cons in Ef. destruct (parse_item (anc ++ [n]) x a0) as [a1|] eqn:Ex; [|discriminate].
+      cbn [forallb]. rewrite (Hx _ _ _ Ex). cbn [andb].
+      (* the tail: re-run the argument on r (only success of the fold is needed) *)
+      clear - Ef Hr.
+      revert a1 inner Ef. induction Hr as [|y r' Hy Hr' IH2]; intros a1 inner Ef; [reflexivity|].
+      rewrite fold_items_cons in Ef. destruct (parse_item (anc ++ [n]) y a1) as [a2|] eqn:Ey; [|discriminate].
+      cbn [forallb]. rewrite (Hy _ _ _ Ey). cbn [andb]. eapply IH2. exact Ef. }
+    rewrite Hall, andb_true_r.
+    destruct (last_init body) as [i|]; [|reflexivity].
+    destruct (mem i (first :: rest)); [reflexivity|discriminate]. }
+  induction items as [|x r IH]; intros anc a a' H; [reflexivity|].
+  rewrite fold_items_cons in H. destruct (parse_item anc x a) as [a1|] eqn:Ex; [|discriminate].
+  cbn [forallb]. rewrite (Hi _ _ _ _ Ex). cbn [andb]. eapply IH. exact H.
+Qed.
+
 Lemma parse_states_forest_wf items ps : parse_states items = Ok ps -> forest_wf items.
 Proof.
   intros Hp. destruct (parse_states_fold _ _ Hp) as (a' & Hf & _).
   constructor.
   - exact (parse_keys_ok _ _ _ _ Hf).
   - exact (ps_names_nodup _ _ Hp).
-  - intros g b Hg. exact (proj1 (ps_super_valid _ _ Hp _ _ Hg)).
-  - intros g b i Hg Hi. pose proof (proj2 (ps_super_valid _ _ Hp _ _ Hg)) as Hin.
-    unfold entry_leaf in Hin. rewrite Hi in Hin. exact Hin.
+  - exact (parse_valid_ok _ _ _ _ Hf).
 Qed.
 
 (* ---------- events sections ---------- *)
@@ -199,6 +228,6 @@ Theorem coherent_variants_distinct m feat :
   NoDup (map (fun ev => to_pascal_case (e_name ev)) (m_events m)).
 Proof.
   intros Hd Hc. unfold dyn_coherent, codegen in Hc. cbn [gr_dyn] in Hc. rewrite Hd in Hc.
-  apply andb_prop in Hc as [Hc _]. apply andb_prop in Hc as [_ Hc]. apply negb_true_iff in Hc.
+  apply andb_prop in Hc as [_ Hc]. apply negb_true_iff in Hc.
   apply has_dup_false_NoDup in Hc. cbn [gen_dyn gd_events] in Hc. rewrite map_map in Hc. exact Hc.
 Qed.
